@@ -167,7 +167,9 @@ def make_body(spec, counters=None):
                 yield p
         return g()
     if kind == 'file':
-        return io.BytesIO(b''.join(p if isinstance(p, bytes) else p.encode('utf-8') for p in parts))
+        f = io.BytesIO(b''.join(p if isinstance(p, bytes) else p.encode('utf-8') for p in parts))
+        f.read(spec.get('skip', 0))      # the handler consumed a preamble (or everything) before returning the object
+        return f
     if kind in FILE_LIKE:
         data = b''.join(p if isinstance(p, bytes) else p.encode('utf-8') for p in parts if p is not None)
         return file_like(kind, data, spec['limits'])
